@@ -8,8 +8,11 @@ package trie
 // encodes, its hash names the blob), every node's encoding counts as 32 bytes or more.
 
 import (
+	"bytes"
 	"errors"
 	"io"
+
+	"github.com/youchainhq/go-youchain/common"
 
 	"github.com/youchainhq/go-youchain/zzverif"
 )
@@ -28,10 +31,49 @@ func zzC13pNewHasher(cachegen, cachelimit uint16, onleaf LeafCallback) *hasher {
 	return &hasher{cachegen: cachegen, cachelimit: cachelimit, onleaf: onleaf}
 }
 
+// content addressing: a collapsed node that was encoded before gets the same blob again
+func zzC13pEqual(a, b node) bool {
+	switch x := a.(type) {
+	case nil:
+		return b == nil
+	case valueNode:
+		y, ok := b.(valueNode)
+		return ok && bytes.Equal(x, y)
+	case hashNode:
+		y, ok := b.(hashNode)
+		return ok && bytes.Equal(x, y)
+	case *shortNode:
+		y, ok := b.(*shortNode)
+		return ok && bytes.Equal(x.Key, y.Key) && zzC13pEqual(x.Val, y.Val)
+	case *fullNode:
+		y, ok := b.(*fullNode)
+		if !ok {
+			return false
+		}
+		for i := range x.Children {
+			if !zzC13pEqual(x.Children[i], y.Children[i]) {
+				return false
+			}
+		}
+		return true
+	}
+	return false
+}
+
 func zzC13pBlob(n node) []byte {
-	zzC13pNodes = append(zzC13pNodes, n)
+	id := 0
+	for i, old := range zzC13pNodes {
+		if zzC13pEqual(old, n) {
+			id = i + 1
+			break
+		}
+	}
+	if id == 0 {
+		zzC13pNodes = append(zzC13pNodes, n)
+		id = len(zzC13pNodes)
+	}
 	b := make([]byte, 33)
-	b[0], b[1] = 0xF0, byte(len(zzC13pNodes))
+	b[0], b[1] = 0xF0, byte(id)
 	return b
 }
 
@@ -42,8 +84,7 @@ func zzC13pEncode(w io.Writer, val interface{}) error {
 
 func zzC13pEncodeToBytes(val interface{}) ([]byte, error) { return zzC13pBlob(val.(node)), nil }
 
-// the hash names the blob (two encodings of the same collapsed node get different ids, which
-// only makes the stand-in stricter than keccak: the proof must carry exactly the referenced blobs)
+// the hash names the blob
 func zzC13pHash(h *hasher, data []byte) hashNode {
 	n := make(hashNode, 32)
 	n[0], n[1] = 0xAB, data[1]
@@ -95,9 +136,16 @@ func zzH_C13_proof() {
 		q = g.next("query")
 	}
 	want := zzC13ModelGet(model, q)
-	root := t.Hash()
 	db := &zzC13pDB{m: map[string][]byte{}}
-	zzverif.Assert(t.Prove(q, 0, db) == nil, "a proof is produced")
+	var root common.Hash
+	if zzverif.Bool("proveBeforeHashing") {
+		// the trie still has un-hashed modifications when the proof is taken
+		zzverif.Assert(t.Prove(q, 0, db) == nil, "a proof is produced")
+		root = t.Hash()
+	} else {
+		root = t.Hash()
+		zzverif.Assert(t.Prove(q, 0, db) == nil, "a proof is produced")
+	}
 	got, _, err := VerifyProof(root, q, db)
 	if want != nil {
 		zzverif.Reach("proved-present")
